@@ -69,7 +69,8 @@ let verify fld g =
   let o = ops_of fld in
   let fam = fam_of (g "fam") in
   let air = { air_n = nat_hex (g "n"); air_k = nat_hex (g "k"); air_g = z (g "g"); air_periodic = rows (g "per"); air_groups = groups_of (g "groups") } in
-  let positions = Stdlib.List.map nat_hex (split ',' (g "pos")) in
+  let n_of_z = function BinNums.Z0 -> BinNums.N0 | BinNums.Zpos p -> BinNums.Npos p | BinNums.Zneg _ -> failwith "negative position" in
+  let positions = Stdlib.List.map (fun s -> n_of_z (z s)) (split ',' (g "pos")) in
   let coins = { cc_trans = zl (g "tc"); cc_bnd = zl (g "bc"); c_z = z (g "z"); cc_deep_trace = zl (g "dt"); cc_deep_cons = zl (g "dc");
                 c_xs = query_xs o (z (g "off")) (z (g "glde")) positions } in
   let proof = { p_modulus = z (g "pmod"); p_options = zl (g "popts"); p_ood_cur = zl (g "cur"); p_ood_next = zl (g "next");
@@ -77,12 +78,13 @@ let verify fld g =
   let fri0 = zl (g "fri0") in
   (* FRI verdict parameter: the first check of FriVerifier::verify (evaluations = layer-0 openings at the query positions);
      the remaining FRI checks are those of an honest proof *)
+  let seen = ref [] in
   let env = { e_modulus = z (g "emod"); e_acceptable = Stdlib.List.map zl (split '|' (g "acc")); e_fri_commit_ok = g "fric" = "1";
               e_pow_ok = g "pow" = "1"; e_trace_auth = g "tauth" = "1"; e_cons_auth = g "cauth" = "1";
-              e_fri = (fun evals -> list_eq evals fri0) } in
+              e_fri = (fun evals -> seen := evals; list_eq evals fri0) } in
   let v = verify_model o (fam_trans o fam) env air coins proof in
   match v with
-  | Accept -> "accept " ^ show_l (deep_evaluations o air coins proof)
+  | Accept -> "accept " ^ show_l !seen   (* the DEEP evaluations the model handed to the FRI verdict *)
   | v -> verdict_name v
 
 (* asr=kind/col/first/stride/v0+v1;... *)
